@@ -622,6 +622,25 @@ Definition C10_encode_ok (hdr uid : bytes) (cs phs : list bytes) (key pt rnd : b
               ((ptkind =? 0) || (ptkind =? 1)) in
   if fits then (code =? 0) && (acc =? 1) else true.
 
+(* the same clause for what NewRequestPacket / NewResponsePacket build, whatever
+   the sizes come to (C10_complete proves that these always fit): srckind 1 = the
+   parts are NewRequestPacket's for a pool whose first cookie has first_len <= 896
+   bytes (what the key exchange lets through), identifier of 32 bytes; srckind 2 =
+   the plaintext is NewResponsePacket's for cookies of one length L, a multiple
+   of 4 (shape_ok), an identifier of at least 32 bytes, a multiple of 4, and room
+   for one cookie by the specification of maxCookies.  The result must be encoded
+   without panic and be accepted under the same key. *)
+Definition C10_encode_src_ok (srckind : Z) (first_len : nat) (shape_ok : bool) (L : nat)
+                             (hdr uid key pt rnd : bytes) (code acc : Z) : bool :=
+  let common := (length hdr =? 48)%nat && key_ok key && (length rnd =? 16)%nat in
+  if (srckind =? 1) && common && (length uid =? 32)%nat && (first_len <=? 896)%nat &&
+     match pt with [] => true | _ :: _ => false end
+  then (code =? 0) && (acc =? 1)
+  else if (srckind =? 2) && common && (32 <=? length uid)%nat && (length uid mod 4 =? 0)%nat &&
+          shape_ok && (1 <=? max_cookies (length uid) L)
+  then (code =? 0) && (acc =? 1)
+  else true.
+
 (* a TLV string that decodes is decoded again to the same cookie after
    re-encoding ("yields exactly the sealed algorithm and keys") *)
 Definition C10_tlv_ok (code same : Z) : bool := if code =? 0 then negb (same =? 0) else true.
